@@ -119,7 +119,7 @@ pub enum Binding {
 pub fn binding_overlay(b: Binding) -> Value {
     match b {
         Binding::Default => json!({}),
-        Binding::Box => json!({ "builder": { "prefer_box_hash": true } }),
+        Binding::Box => json!({ "core": { "prefer_compress_manifests": true } }),
     }
 }
 
@@ -185,4 +185,42 @@ pub fn read_sim(
 
 pub fn fmt_supports_box(f: Fmt) -> bool {
     crate::assets::BOX_HASH.contains(&f)
+}
+
+// ------------------------------------------------------------------ panic capture
+
+pub static LAST_PANIC: std::sync::Mutex<String> = std::sync::Mutex::new(String::new());
+
+/// Install a panic hook that records "file:line: message" (instead of printing it).
+pub fn install_panic_hook() {
+    std::panic::set_hook(Box::new(|info| {
+        let loc = info
+            .location()
+            .map(|l| {
+                let f = l.file();
+                // keep the path from the crate directory on, so that it is stable across machines
+                let short = f.rsplit_once("/src/").map(|(a, b)| {
+                    format!("{}/src/{}", a.rsplit('/').next().unwrap_or(""), b)
+                });
+                format!("{}:{}", short.unwrap_or_else(|| f.to_string()), l.line())
+            })
+            .unwrap_or_else(|| "?".into());
+        let msg = info
+            .payload()
+            .downcast_ref::<String>()
+            .cloned()
+            .or_else(|| info.payload().downcast_ref::<&str>().map(|s| s.to_string()))
+            .unwrap_or_default();
+        if let Ok(mut g) = LAST_PANIC.lock() {
+            *g = format!("{loc}|{msg}");
+        }
+    }));
+}
+
+/// Run `f`; a panic becomes Err("file:line|message").
+pub fn guarded<T>(f: impl FnOnce() -> T) -> Result<T, String> {
+    match std::panic::catch_unwind(std::panic::AssertUnwindSafe(f)) {
+        Ok(v) => Ok(v),
+        Err(_) => Err(LAST_PANIC.lock().map(|g| g.clone()).unwrap_or_default()),
+    }
 }
